@@ -1,6 +1,6 @@
 (** Proofs about the [connIDManager] model, part 2: reset tokens exact; the invariant
     behind "never retire an ID in use / retire exactly once / accept within the limit"
-    on histories that avoid the repeated-probing-ID defect ([safe_add]). *)
+    on every history the connection produces. *)
 From Coq Require Import List ZArith Bool Lia.
 From V Require Import Gen.Params Lib.Hex ConnIDs.Model ConnIDs.ProofsGen ConnIDs.ProofsMgr.
 Import ListNotations.
@@ -13,7 +13,8 @@ Lemma add_inner_closed seq rpt c tok d st st' r :
   mgr_add_inner seq rpt c tok d st = (st', r) -> m_closed st' = m_closed st.
 Proof.
   unfold mgr_add_inner. destruct (m_acid st); [intros H; inversion H; reflexivity|].
-  destruct (_ || _); [intros H; inversion H; reflexivity|].
+  destruct (pfind seq (m_probing st)); [destruct (_ && _); intros H; inversion H; reflexivity|].
+  destruct (negb _ && _); [intros H; inversion H; reflexivity|].
   set (st1 := retire_probing_stage rpt st). set (st2 := retire_queue_stage rpt st1).
   destruct (rps_spec rpt st) as (_ & _ & _ & _ & _ & _ & Hc1 & _). fold st1 in Hc1.
   destruct (rqs_spec rpt st1) as (_ & _ & _ & _ & _ & _ & _ & Hc2 & _). fold st2 in Hc2.
@@ -43,6 +44,57 @@ Proof.
     destruct (plookup id (m_probing st)); [simpl; (assumption || reflexivity)|]. destruct (m_queue st); simpl; (assumption || reflexivity).
   - unfold mgr_path_retire. destruct (m_closed st) eqn:Ec; [simpl; (assumption || reflexivity)|]. destruct (m_acid st); [simpl; (assumption || reflexivity)|].
     destruct (plookup id (m_probing st)); simpl; (assumption || reflexivity).
+Qed.
+
+(* ------------------------------------------------------------------------- *)
+(** * The advertised limit is only changed by SetConnectionIDLimit *)
+
+Lemma rps_adv rpt st : m_advlimit (retire_probing_stage rpt st) = m_advlimit st.
+Proof. unfold retire_probing_stage. destruct (rpt =? 0); [reflexivity|]. destruct (retire_probing_below _ _ _); reflexivity. Qed.
+
+Lemma rqs_adv rpt st : m_advlimit (retire_queue_stage rpt st) = m_advlimit st.
+Proof. unfold retire_queue_stage. destruct (_ <? rpt); [|reflexivity]. destruct (retire_queue_below _ _ _); reflexivity. Qed.
+
+Lemma update_adv d st st' : update_conn_id d st = Some st' -> m_advlimit st' = m_advlimit st.
+Proof.
+  unfold update_conn_id. destruct (m_closed st); [discriminate|]. destruct (m_queue st); [discriminate|].
+  intros H; inversion H; reflexivity.
+Qed.
+
+Lemma add_inner_adv seq rpt c tok d st st' r :
+  mgr_add_inner seq rpt c tok d st = (st', r) -> m_advlimit st' = m_advlimit st.
+Proof.
+  unfold mgr_add_inner. destruct (m_acid st); [intros H; inversion H; reflexivity|].
+  destruct (pfind seq (m_probing st)); [destruct (_ && _); intros H; inversion H; reflexivity|].
+  destruct (negb _ && _); [intros H; inversion H; reflexivity|].
+  set (st2 := retire_queue_stage rpt (retire_probing_stage rpt st)).
+  assert (Hc : m_advlimit st2 = m_advlimit st) by (unfold st2; rewrite rqs_adv, rps_adv; reflexivity).
+  destruct (seq =? m_active st2); [intros H; inversion H; subst; assumption|].
+  destruct (add_conn_id _ _) as [q'|]; [|intros H; inversion H; subst; assumption].
+  destruct (m_active (set_queue st2 q') <? rpt).
+  - destruct (update_conn_id d (set_queue st2 q')) as [st4|] eqn:E4; intros H; inversion H; subst; [|assumption].
+    rewrite (update_adv _ _ _ E4). assumption.
+  - intros H; inversion H; subst. assumption.
+Qed.
+
+Definition sets_limit (o : mop) : option Z := match o with MSetLimit n => Some n | _ => None end.
+
+(** the limit the manager enforces follows the last SetConnectionIDLimit call *)
+Theorem mgr_step_adv o st :
+  m_advlimit (fst (mgr_step o st)) = match sets_limit o with Some n => n | None => m_advlimit st end.
+Proof.
+  destruct o as [seq rpt c tok draw|c tok|draw|k| | |c|tok|id|id|tok|n]; cbn [mgr_step sets_limit]; try reflexivity.
+  - unfold mgr_add. destruct (mgr_add_inner seq rpt c tok draw st) as [st' r] eqn:E.
+    apply add_inner_adv in E. destruct r; simpl; try exact E. destruct (_ <=? _); simpl; exact E.
+  - unfold mgr_add_pref. destruct (add_conn_id _ _); reflexivity.
+  - unfold mgr_get. destruct (m_closed st); [reflexivity|]. destruct (should_update st); [|reflexivity].
+    destruct (update_conn_id draw st) as [st'|] eqn:E; [|reflexivity]. simpl. apply (update_adv _ _ _ E).
+  - unfold mgr_change_initial. destruct (_ =? _); reflexivity.
+  - unfold mgr_set_token. destruct (m_closed st); [reflexivity|]. destruct (_ =? _); reflexivity.
+  - unfold mgr_path_get. destruct (m_closed st); [reflexivity|]. destruct (m_acid st); [reflexivity|].
+    destruct (plookup id (m_probing st)); [reflexivity|]. destruct (m_queue st); reflexivity.
+  - unfold mgr_path_retire. destruct (m_closed st); [reflexivity|]. destruct (m_acid st); [reflexivity|].
+    destruct (plookup id (m_probing st)); reflexivity.
 Qed.
 
 (* ------------------------------------------------------------------------- *)
@@ -351,19 +403,14 @@ Qed.
 (* ------------------------------------------------------------------------- *)
 (** * Histories the theorems are about *)
 
-(** A repeated NEW_CONNECTION_ID whose sequence number is in use on a probing path, or
-    equals highestProbingID / the active number while highestProbingID is above the
-    active number, is what conn_id_manager.go:83 misjudges (see [retire_refuted_*]). *)
-Definition safe_add (st : mgr) (seq : Z) : Prop :=
-  ~ In seq (pseqs (m_probing st)) /\
-  ~ (m_active st < m_hprobe st /\ (seq = m_hprobe st \/ seq = m_active st)).
-
 (** What the connection does: frames as the parser delivers them (Retire Prior To <=
-    Sequence Number), no repeated probing ID, nothing after Close or after a frame error. *)
+    Sequence Number), nothing after Close or after a frame error. (Before the repair of
+    conn_id_manager.go:83 the theorems below needed the extra hypothesis that no frame
+    repeats a sequence number handed to path probing; see the regression examples.) *)
 Definition op_ok (o : mop) (st : mgr) : Prop :=
   m_closed st = false /\ r_cls (snd (mgr_step o st)) = ROk /\
   match o with
-  | MAdd seq rpt _ _ _ => 0 <= rpt <= seq /\ safe_add st seq
+  | MAdd seq rpt _ _ _ => 0 <= rpt <= seq
   | MAddPref _ _ => m_active st = 0 /\ m_hprobe st = 0
   | MSetTok _ => m_atok st = None
   | MClose => False
@@ -382,26 +429,39 @@ Proof. split; [apply core_init|split; [simpl; lia|split; [unfold pids_ok; simpl;
 Lemma held_cases st s : In s (held st) -> s = m_active st \/ In s (qseqs (m_queue st)) \/ In s (pseqs (m_probing st)).
 Proof. unfold held. intros [<-|H]; [auto|]. apply in_app_or in H. tauto. Qed.
 
-(** the step of [add] after the two retirement loops, as one lemma *)
+(** [add] preserves the invariant (for every parsable frame, repeated or not) *)
 Lemma add_inner_inv seq rpt c tok d st st' r :
-  minv st -> 0 <= rpt <= seq -> safe_add st seq ->
+  minv st -> 0 <= rpt <= seq ->
   mgr_add_inner seq rpt c tok d st = (st', r) ->
   r <> RPanic /\ (m_acid st <> [] -> r <> RProto) /\
   (r = ROk -> core st' /\ m_hretired st' <= m_active st').
 Proof.
-  intros (Hcore & HF & Hpid & Hcl) Hv [Hsp Hsa] H.
+  intros (Hcore & HF & Hpid & Hcl) Hv H.
   unfold mgr_add_inner in H. destruct (m_acid st) eqn:Hacid.
   { inversion H; subst. split; [discriminate|split; [congruence|discriminate]]. }
-  destruct ((seq <? Z.max (m_active st) (m_hprobe st)) || (seq <? m_hretired st)) eqn:Eimm.
+  destruct (pfind seq (m_probing st)) as [e|] eqn:Epf.
+  { destruct (_ && _); inversion H; subst; (split; [discriminate|split; [intros _; discriminate|]]);
+      [intros _; split; assumption|discriminate]. }
+  apply pfind_none in Epf. rename Epf into Hsp.
+  destruct (negb (seq =? m_active st) && ((seq <? m_active st) || (seq <=? m_hprobe st) || (seq <? m_hretired st))) eqn:Eimm.
   { inversion H; subst; clear H. split; [discriminate|split; [intros _; discriminate|intros _; split; [|assumption]]].
-    apply core_emit; [assumption| |].
-    - intros Hin. apply held_cases in Hin as [->|[Hin|Hin]].
-      + apply orb_prop in Eimm as [E|E]; [apply Z.ltb_lt in E|apply Z.ltb_lt in E; lia].
-        apply Hsa. split; [lia|auto].
-      + destruct (c_qgt _ Hcore _ Hin). apply orb_prop in Eimm as [E|E]; apply Z.ltb_lt in E; lia.
-      + contradiction.
-    - apply orb_prop in Eimm as [E|E]; apply Z.ltb_lt in E; lia. }
-  apply orb_false_elim in Eimm as [E1 E2]. apply Z.ltb_ge in E1, E2.
+    apply andb_prop in Eimm as [En Elow]. apply negb_true_iff in En. apply Z.eqb_neq in En.
+    assert (Hlow : seq < m_active st \/ seq <= m_hprobe st \/ seq < m_hretired st).
+    { apply orb_prop in Elow as [Elow|E3]; [apply orb_prop in Elow as [E1|E2]|].
+      - left. apply Z.ltb_lt. assumption.
+      - right; left. apply Z.leb_le. assumption.
+      - right; right. apply Z.ltb_lt. assumption. }
+    apply core_emit; [assumption| |assumption].
+    intros Hin. apply held_cases in Hin as [->|[Hin|Hin]].
+    - congruence.
+    - destruct (c_qgt _ Hcore _ Hin). lia.
+    - contradiction. }
+  assert (Hthr : seq = m_active st \/ (m_active st < seq /\ m_hprobe st < seq /\ m_hretired st <= seq)).
+  { apply andb_false_iff in Eimm as [En|Elow].
+    - left. apply negb_false_iff in En. apply Z.eqb_eq. assumption.
+    - apply orb_false_elim in Elow as [Elow E3]. apply orb_false_elim in Elow as [E1 E2].
+      apply Z.ltb_ge in E1, E3. apply Z.leb_gt in E2.
+      destruct (Z.eq_dec seq (m_active st)); [left; assumption|right; lia]. }
   set (st1 := retire_probing_stage rpt st) in *.
   set (st2 := retire_queue_stage rpt st1) in *.
   pose proof (core_rps rpt st Hcore) as Hcore1. fold st1 in Hcore1.
@@ -414,10 +474,9 @@ Proof.
   destruct (Z.eqb_spec seq (m_active st2)) as [Heq|Hne].
   { inversion H; subst st' r; clear H. split; [discriminate|split; [intros _; discriminate|intros _; split; [assumption|]]].
     rewrite Hhr2, Ha. destruct (m_hretired st <? rpt); lia. }
-  (* the sequence number is new to the thresholds: strictly above active and highestProbingID *)
+  destruct Hthr as [Hx|(Hact0 & Hhp0 & Hhr0)]; [congruence|].
   assert (Hact : m_active st2 < seq) by lia.
-  assert (Hhp : m_hprobe st2 < seq).
-  { rewrite Hh. destruct (Z_lt_le_dec (m_hprobe st) seq); [assumption|]. exfalso. apply Hsa. split; [lia|left; lia]. }
+  assert (Hhp : m_hprobe st2 < seq) by lia.
   assert (Hnp : ~ In seq (pseqs (m_probing st2))).
   { rewrite Hp2. intros Hin. apply Hsp. eapply in_pseqs_incl; eauto. }
   assert (Hret : retc seq (m_log st2) = 0).
@@ -463,11 +522,11 @@ Qed.
 Lemma core_path_get st id f r :
   core st -> m_queue st = f :: r ->
   core (mkM r (n_seq f) (m_probing st ++ [(id, f)]) (m_hsdone st) (m_active st) (m_hretired st)
-            (m_acid st) (m_atok st) (m_since st) (m_ppc st) (m_closed st) (EvAddTok (n_tok f) :: m_log st)).
+            (m_acid st) (m_atok st) (m_since st) (m_ppc st) (m_closed st) (EvAddTok (n_tok f) :: m_log st) (m_advlimit st)).
 Proof.
   intros [C1 C2 C3 C4 C5] Hq. rewrite Hq in C1, C2. simpl in C1, C2. destruct C1 as [Hlt Hs].
   destruct (C2 (n_seq f) (or_introl eq_refl)) as [Haf Hhf].
-  set (st' := mkM _ _ _ _ _ _ _ _ _ _ _ _).
+  set (st' := mkM _ _ _ _ _ _ _ _ _ _ _ _ _).
   constructor.
   - simpl. assumption.
   - simpl. intros q Hin. split; [apply C2; right; assumption|apply Hlt, Hin].
@@ -487,7 +546,7 @@ Lemma core_path_retire st id e :
   core st -> pids_ok st -> plookup id (m_probing st) = Some e ->
   core (mkM (m_queue st) (m_hprobe st) (pdelete id (m_probing st)) (m_hsdone st) (m_active st) (m_hretired st)
             (m_acid st) (m_atok st) (m_since st) (m_ppc st) (m_closed st)
-            (EvRemTok (n_tok e) :: EvRetire (n_seq e) :: m_log st)).
+            (EvRemTok (n_tok e) :: EvRetire (n_seq e) :: m_log st) (m_advlimit st)).
 Proof.
   intros [C1 C2 C3 C4 C5] Hp El.
   destruct (pdelete_cnt _ _ _ Hp El) as [Hs _].
@@ -516,9 +575,9 @@ Proof.
   split; [|split; [|split; [apply mgr_step_pids; assumption|rewrite mgr_step_closed; assumption]]];
   destruct o as [seq rpt c tok draw|c tok|draw|k| | |c|tok|id|id|tok|n]; cbn [mgr_step] in *; try exact (False_ind _ Hok); try assumption.
   (* core *)
-  - destruct Hok as [Hv Hsafe]. unfold mgr_add in *.
+  - unfold mgr_add in *.
     destruct (mgr_add_inner seq rpt c tok draw st) as [st' r] eqn:E.
-    destruct (add_inner_inv _ _ _ _ _ _ _ _ Hinv Hv Hsafe E) as (_ & _ & H).
+    destruct (add_inner_inv _ _ _ _ _ _ _ _ Hinv Hok E) as (_ & _ & H).
     destruct r; simpl in Hres; try discriminate. destruct (_ <=? _); simpl in *; [discriminate|]. apply H. reflexivity.
   - destruct Hok as [Ha Hh]. unfold mgr_add_pref in *.
     destruct (add_conn_id (mkN 1 c tok) (m_queue st)) as [q'|] eqn:E; simpl in *; [|discriminate].
@@ -536,18 +595,19 @@ Proof.
   - unfold mgr_path_get. rewrite Hcl. destruct (m_acid st); simpl; [assumption|].
     destruct (plookup id (m_probing st)); simpl; [assumption|]. destruct (m_queue st) as [|f r] eqn:Eq; simpl; [assumption|].
     apply (core_ext (mkM r (n_seq f) (m_probing st ++ [(id, f)]) (m_hsdone st) (m_active st) (m_hretired st)
-            (m_acid st) (m_atok st) (m_since st) (m_ppc st) (m_closed st) (EvAddTok (n_tok f) :: m_log st)));
+            (m_acid st) (m_atok st) (m_since st) (m_ppc st) (m_closed st) (EvAddTok (n_tok f) :: m_log st) (m_advlimit st)));
       [reflexivity|reflexivity|reflexivity|reflexivity|reflexivity|intros; reflexivity|apply core_path_get; assumption].
   - unfold mgr_path_retire. rewrite Hcl. destruct (m_acid st); simpl; [assumption|].
     destruct (plookup id (m_probing st)) as [e|] eqn:El; simpl; [|assumption].
     apply (core_ext (mkM (m_queue st) (m_hprobe st) (pdelete id (m_probing st)) (m_hsdone st) (m_active st) (m_hretired st)
             (m_acid st) (m_atok st) (m_since st) (m_ppc st) (m_closed st)
-            (EvRemTok (n_tok e) :: EvRetire (n_seq e) :: m_log st)));
+            (EvRemTok (n_tok e) :: EvRetire (n_seq e) :: m_log st) (m_advlimit st)));
       [reflexivity|reflexivity|reflexivity|reflexivity|reflexivity|intros; reflexivity|apply core_path_retire; assumption].
+  - simpl. (apply (core_ext st); [reflexivity|reflexivity|reflexivity|reflexivity|reflexivity|intros; reflexivity|exact Hcore]).
   (* highestRetired <= activeSequenceNumber *)
-  - destruct Hok as [Hv Hsafe]. unfold mgr_add in *.
+  - unfold mgr_add in *.
     destruct (mgr_add_inner seq rpt c tok draw st) as [st' r] eqn:E.
-    destruct (add_inner_inv _ _ _ _ _ _ _ _ Hinv Hv Hsafe E) as (_ & _ & H).
+    destruct (add_inner_inv _ _ _ _ _ _ _ _ Hinv Hok E) as (_ & _ & H).
     destruct r; simpl in Hres; try discriminate. destruct (_ <=? _); simpl in *; [discriminate|]. apply H. reflexivity.
   - unfold mgr_add_pref. destruct (add_conn_id _ _); simpl; assumption.
   - unfold mgr_get in *. rewrite Hcl in *. destruct (should_update st); simpl; [|assumption].
@@ -604,7 +664,7 @@ Proof.
 Qed.
 
 (** The retirement theorem. For every history the connection produces (frames as parsed,
-    no repeated probing ID, nothing after Close or a frame error):
+    nothing after Close or a frame error):
     - active, queued and probing sequence numbers are pairwise distinct;
     - no RETIRE_CONNECTION_ID was ever queued for a sequence number still held;
     - a sequence number that was received (the initial 0, or in a frame) and is no longer
@@ -646,9 +706,14 @@ Qed.
 
 Lemma add_inner_conflict seq rpt c tok d st st' :
   mgr_add_inner seq rpt c tok d st = (st', ROther) ->
-  exists x, In x (m_queue st) /\ n_seq x = seq /\ cid_eqb (n_cid x) c && (n_tok x =? tok) = false.
+  exists x, (In x (m_queue st) \/ exists id, In (id, x) (m_probing st)) /\
+            n_seq x = seq /\ cid_eqb (n_cid x) c && (n_tok x =? tok) = false.
 Proof.
-  unfold mgr_add_inner. destruct (m_acid st); [discriminate|]. destruct (_ || _); [discriminate|].
+  unfold mgr_add_inner. destruct (m_acid st); [discriminate|].
+  destruct (pfind seq (m_probing st)) as [e|] eqn:Epf.
+  { destruct (cid_eqb (n_cid e) c && (n_tok e =? tok)) eqn:Ec; [discriminate|]. intros _.
+    apply pfind_some in Epf as (Hs & _ & id & Hin). exists e. split; [right; exists id; assumption|auto]. }
+  destruct (negb _ && _); [discriminate|].
   set (st1 := retire_probing_stage rpt st). set (st2 := retire_queue_stage rpt st1).
   destruct (rps_spec rpt st) as (Hq1 & _). fold st1 in Hq1.
   destruct (rqs_spec rpt st1) as (Hq2 & _). fold st2 in Hq2.
@@ -657,7 +722,7 @@ Proof.
   - destruct (m_active (set_queue st2 q') <? rpt); [destruct (update_conn_id _ _)|]; intros Hx; inversion Hx.
   - intros _. unfold add_conn_id in E. destruct (m_queue st2) as [|y q2] eqn:Eq2; [discriminate|].
     revert E. destruct (n_seq (last (y :: q2) (mkN seq c tok)) <? n_seq (mkN seq c tok)); [intros Hx; discriminate Hx|]. intros E. apply add_slow_none in E as (x & Hx & Hs & Hc). simpl in Hs, Hc.
-    exists x. split; [|auto].
+    exists x. split; [left|auto].
     rewrite Hq2, Hq1 in Hx.
     destruct (m_hretired st1 <? rpt); [apply filter_In in Hx; tauto|assumption].
 Qed.
@@ -666,8 +731,9 @@ Lemma add_inner_classes seq rpt c tok d st st' r :
   mgr_add_inner seq rpt c tok d st = (st', r) -> r = ROk \/ r = RProto \/ r = ROther \/ r = RPanic.
 Proof.
   unfold mgr_add_inner. destruct (m_acid st); [intros H; inversion H; auto|].
-  destruct (_ || _); [intros H; inversion H; auto|].
-  destruct (seq =? _); [intros H; inversion H; auto|].
+  destruct (pfind seq (m_probing st)); [destruct (_ && _); intros H; inversion H; auto|].
+  destruct (negb _ && _); [intros H; inversion H; auto|].
+  destruct (seq =? m_active _); [intros H; inversion H; auto|].
   destruct (add_conn_id _ _); [|intros H; inversion H; auto].
   destruct (m_active _ <? rpt); [destruct (update_conn_id _ _)|]; intros H; inversion H; auto.
 Qed.
@@ -676,25 +742,27 @@ Qed.
     connection IDs in use, a NEW_CONNECTION_ID frame
     - is never answered with PROTOCOL_VIOLATION and never panics;
     - is refused with CONNECTION_ID_LIMIT_ERROR only if afterwards more than
-      MaxActiveConnectionIDs sequence numbers are held, all of them distinct, received and
+      lim = max(MaxActiveConnectionIDs, advertised limit) sequence numbers are held, all of them distinct, received and
       not reported retired - so never while the peer's own count of active IDs (any
       duplicate-free list [L] containing what is held) is within the limit;
-    - is accepted only if active + queue fit into MaxActiveConnectionIDs;
-    - gives another error only for conflicting contents of a queued sequence number. *)
+    - is accepted only if active + queue fit into lim (the first ID beyond is refused);
+    - gives another error only for conflicting contents of a queued or probing sequence number. *)
 Theorem accept_within_limit init ops st seq rpt c tok d :
-  reachP op_ok init ops st -> m_acid st <> [] -> 0 <= rpt <= seq -> safe_add st seq ->
+  reachP op_ok init ops st -> m_acid st <> [] -> 0 <= rpt <= seq ->
   let st' := fst (mgr_add seq rpt c tok d st) in
   let r := snd (mgr_add seq rpt c tok d st) in
+  let lim := Z.max MaxActiveConnectionIDs (m_advlimit st) in
   r <> RProto /\ r <> RPanic /\
-  (r = RLimit -> MaxActiveConnectionIDs < zlength (held st')) /\
-  (r = ROk -> 1 + zlength (m_queue st') <= MaxActiveConnectionIDs) /\
+  (r = RLimit -> lim < zlength (held st')) /\
+  (r = ROk -> 1 + zlength (m_queue st') <= lim) /\
   (accepted r -> NoDup (held st') /\
                  forall s, In s (held st') -> retc s (m_log st') = 0 /\
                                               (s = 0 \/ 1 <= frames_for s (MAdd seq rpt c tok d :: ops))) /\
-  (forall L, NoDup L -> incl (held st') L -> zlength L <= MaxActiveConnectionIDs -> r <> RLimit) /\
-  (r = ROther -> exists x, In x (m_queue st) /\ n_seq x = seq /\ cid_eqb (n_cid x) c && (n_tok x =? tok) = false).
+  (forall L, NoDup L -> incl (held st') L -> zlength L <= lim -> r <> RLimit) /\
+  (r = ROther -> exists x, (In x (m_queue st) \/ exists id, In (id, x) (m_probing st)) /\
+                           n_seq x = seq /\ cid_eqb (n_cid x) c && (n_tok x =? tok) = false).
 Proof.
-  intros Hr Hacid Hv Hsafe st' r.
+  intros Hr Hacid Hv st' r lim.
   pose proof (reach_minv _ _ _ Hr) as Hinv.
   assert (Hany : reachP any_op init (MAdd seq rpt c tok d :: ops) st').
   { replace st' with (fst (mgr_step (MAdd seq rpt c tok d) st)).
@@ -702,14 +770,15 @@ Proof.
     - unfold st'. cbn [mgr_step]. destruct (mgr_add seq rpt c tok d st); reflexivity. }
   unfold st', r in *. clear st' r. unfold mgr_add in *.
   destruct (mgr_add_inner seq rpt c tok d st) as [st1 r1] eqn:E.
-  destruct (add_inner_inv _ _ _ _ _ _ _ _ Hinv Hv Hsafe E) as (Hnp & Hnproto & Hok).
+  pose proof (add_inner_adv _ _ _ _ _ _ _ _ E) as Hadv. rewrite Hadv in *. fold lim in Hany |- *.
+  destruct (add_inner_inv _ _ _ _ _ _ _ _ Hinv Hv E) as (Hnp & Hnproto & Hok).
   specialize (Hnproto Hacid).
   assert (Hheld : r1 = ROk -> NoDup (held st1) /\
             forall s, In s (held st1) -> retc s (m_log st1) = 0 /\ (s = 0 \/ 1 <= frames_for s (MAdd seq rpt c tok d :: ops))).
   { intros ->. destruct (Hok eq_refl) as [Hcore _]. destruct (core_held_once _ Hcore) as [Hnd Hh].
     split; [assumption|]. intros s Hin. split; [apply Hh; assumption|].
     assert (Hany1 : reachP any_op init (MAdd seq rpt c tok d :: ops) st1).
-    { destruct (MaxActiveConnectionIDs <=? zlength (m_queue st1)); exact Hany. }
+    { destruct (lim <=? zlength (m_queue st1)); exact Hany. }
     pose proof (phi_history _ _ _ s Hany1) as [_ Hhi].
     assert (1 <= phi st1 s) by (apply phi_tracked; left; assumption).
     destruct (Z.eqb_spec 0 s) as [<-|Hne]; [left; reflexivity|right]. cbn [b2z] in Hhi. lia. }
@@ -717,7 +786,7 @@ Proof.
   destruct r1; try (exfalso; destruct Hcls as [Hx|[Hx|[Hx|Hx]]]; (discriminate Hx || congruence)).
   - (* inner ROk *)
     destruct (Hheld eq_refl) as [Hnd Hh].
-    destruct (Z.leb_spec MaxActiveConnectionIDs (zlength (m_queue st1))) as [Hge|Hlt]; cbn [fst snd].
+    destruct (Z.leb_spec lim (zlength (m_queue st1))) as [Hge|Hlt]; cbn [fst snd].
     + repeat split; try discriminate.
       * intros _. rewrite zlength_held. pose proof (zlength_nonneg (m_probing st1)). lia.
       * exact Hnd.
